@@ -443,7 +443,10 @@ static std::string ext_once(uint64_t p, uint64_t e, const std::string& op, uint6
         else if (op == "iter") { if (i % 2) it(r); else it.random(r); Ext::Element c; cp.random(c); if (c != r) o << " COPY-DIFFERS"; }
         else return "UNKNOWN-OP";
         o << " [";
-        for (size_t j = 0; j < r.size(); ++j) o << (j ? " " : "") << (long long) r[j];
+        for (size_t j = 0; j < r.size(); ++j) {
+            if (op == "iter") { int64_t v = -1; if (r[j] >= 0 && (uint64_t) r[j] < p) F.base_field().convert(v, r[j]); o << (j ? " " : "") << (long long) v; }   // value
+            else o << (j ? " " : "") << (long long) r[j];                                                       // exponent
+        }
         o << "]";
     }
     if (op != "iter") o << " | " << g.seed();
